@@ -23,8 +23,10 @@ type blasMenus struct {
 	incs         []int
 	scalars      [][2]complex128
 	pairs        bool
-	// pairsAllScalars: enumerate the pairs of faults for every scalar pair (thorough).
-	pairsAllScalars bool
+	// The first fullScalars scalar pairs run on the full ld × inc grid, the others on
+	// the thin grid (ld = min, inc ∈ {-2, 1}); the first pairScalars also run all
+	// pairs of faults.
+	fullScalars, pairScalars int
 }
 
 func menusFor(g *vlib.G) blasMenus {
@@ -35,8 +37,14 @@ func menusFor(g *vlib.G) blasMenus {
 		band:    []int{0, 1, 2, 3},
 		ldDelta: []int{0, 2},
 		incs:    []int{-2, -1, 1, 2},
-		scalars: [][2]complex128{{2, 3}, {0, 3}},
-		pairs:   true,
+		// (alpha, beta): the ordinary pair first, then every value that triggers a
+		// quick return or a special path in some routine, alone and combined:
+		// alpha == 0, beta == 1, beta == 0, alpha == 1; for the complex precisions
+		// also a purely imaginary alpha and a beta with real part 1 (the last two).
+		scalars:     [][2]complex128{{2, 3}, {0, 3}, {0, 1}, {2, 1}, {2, 0}, {0, 0}, {1, 1}, {1, 0}, {2i, 1}, {0, 1 + 1i}},
+		fullScalars: 2,
+		pairScalars: 1,
+		pairs:       true,
 	}
 	if g.Thorough() {
 		m.band = []int{0, 1, 2, 3, 5}
@@ -44,8 +52,8 @@ func menusFor(g *vlib.G) blasMenus {
 		m.dims2 = []int{0, 1, 2, 3, 5, 9}
 		m.dims = []int{0, 1, 2, 3, 5, 9}
 		m.incs = []int{-3, -2, -1, 1, 2, 3}
-		m.pairsAllScalars = true
-		m.scalars = [][2]complex128{{2, 3}, {0, 3}, {0, 1}, {1, 0}}
+		m.fullScalars = len(m.scalars)
+		m.pairScalars = 4
 	}
 	return m
 }
@@ -218,10 +226,27 @@ func runBlasCase(t *vlib.T, bm *blasMethod, proto Call, menus blasMenus) {
 	if r.Has("P") {
 		flags = rotms
 	}
+	thinIncs, thinLd := []int{-2, 1}, []int{0}
 	for isc, sc := range scal {
-		// quick tier: the pairs of faults are enumerated with the first scalar pair only
-		// (the argument checks do not depend on the scalars; singles run with every pair).
-		pairs := menus.pairs && (isc == 0 || menus.pairsAllScalars)
+		if isc >= len(scal)-2 && len(scal) > 2 && !bm.p.Complex() {
+			continue // the complex-valued pairs
+		}
+		// Every single fault is crossed with every scalar pair (a quick return such as
+		// alpha == 0 && beta == 1 must not precede a documented check); the pairs of
+		// faults and the full ld × inc grid only with the first scalar pairs.
+		pairs := menus.pairs && isc < menus.pairScalars
+		incs, lds := menus.incs, menus.ldDelta
+		if isc >= menus.fullScalars {
+			incs, lds = thinIncs, thinLd
+		}
+		for k := range r.Ops {
+			switch {
+			case r.Ops[k].Kind == Vector:
+				rad[k] = len(incs)
+			case r.Ops[k].Kind.HasLD():
+				rad[k] = len(lds)
+			}
+		}
 		for _, fl := range flags {
 			vlib.Product(rad, func(idx []int) bool {
 				c := proto
@@ -236,9 +261,9 @@ func runBlasCase(t *vlib.T, bm *blasMethod, proto Call, menus blasMenus) {
 				for k := range r.Ops {
 					switch {
 					case r.Ops[k].Kind == Vector:
-						c.Inc[k] = menus.incs[idx[k]]
+						c.Inc[k] = incs[idx[k]]
 					case r.Ops[k].Kind.HasLD():
-						c.Ld[k] = MinLd(&c, k) + menus.ldDelta[idx[k]]
+						c.Ld[k] = MinLd(&c, k) + lds[idx[k]]
 					}
 				}
 				bm.runBase(debugFailer{t}, &c, regs, pairs, &st)
